@@ -4,6 +4,7 @@ its name, value bytes intact, the first occurrence winning.  Stated on the raw-h
 message model (`rawInsert`, the model of `Collection::addRaw` with its case-insensitive hash/equality).
 -/
 import PistacheModel.Model.Parser
+import PistacheModel.Model.Headers
 
 namespace Pistache.Parser.Props
 open Pistache Pistache.Stream Pistache.Parser
@@ -70,7 +71,71 @@ theorem raw_first_wins (adds : List (Bytes × Bytes)) (q : Bytes) :
       · simp [ha]
       · simp [ha]
 
+/-! ### the typed collection (`Collection::add`, keyed by the registered name) -/
+
+/-- `Collection::tryGet(name)` once the name has been mapped to its registered spelling -/
+def typedGet (m : List (String × Bytes)) (canon : String) : Option Bytes :=
+  (m.find? (fun p => p.1 = canon)).map (·.2)
+
+/-- the registered spelling of a field name does not depend on how the query is capitalised -/
+theorem canon_any_case (q q' : Bytes) (h : q.map lower = q'.map lower) : Headers.canonOf q = Headers.canonOf q' := by
+  unfold Headers.canonOf; rw [h]
+
+theorem typedGet_insert (m : List (String × Bytes)) (n : String) (v : Bytes) (c : String) :
+    typedGet (kfInsert m n v) c =
+      (match typedGet m c with
+       | some x => some x
+       | none => if n = c then some v else none) := by
+  unfold kfInsert typedGet
+  by_cases hany : m.any (fun p => p.1 = n) = true
+  · rw [if_pos hany]
+    cases hf : m.find? (fun p => p.1 = c) with
+    | some pr => simp
+    | none =>
+      simp only [Option.map_none]
+      split
+      · rename_i hnc
+        exfalso
+        rw [List.any_eq_true] at hany
+        obtain ⟨pr, hpm, hpe⟩ := hany
+        have := List.find?_eq_none.mp hf pr hpm
+        simp only [decide_eq_true_eq] at hpe this
+        exact this (hpe.trans hnc)
+      · rfl
+  · rw [if_neg hany, List.find?_append]
+    cases hf : m.find? (fun p => p.1 = c) with
+    | some pr => simp
+    | none =>
+      simp only [Option.none_or, List.find?_cons, List.find?_nil]
+      by_cases hnc : n = c
+      · simp [hnc]
+      · simp [hnc]
+
+/-- T3 (first occurrence wins for the typed look-up too): after the typed headers of a message have been added in message
+    order, looking a registered field up yields the value of its FIRST occurrence, however often the field is repeated. -/
+theorem typed_first_wins (adds : List (String × Bytes)) (c : String) :
+    ∀ (m0 : List (String × Bytes)),
+      typedGet (adds.foldl (fun m a => kfInsert m a.1 a.2) m0) c =
+        (match typedGet m0 c with
+         | some x => some x
+         | none => (adds.find? (fun a => a.1 = c)).map (·.2)) := by
+  induction adds with
+  | nil => intro m0; simp only [List.foldl_nil, List.find?_nil, Option.map_none]; cases h : typedGet m0 c <;> rfl
+  | cons a rest ih =>
+    intro m0
+    rw [List.foldl_cons, ih, typedGet_insert]
+    cases hm : typedGet m0 c with
+    | some x => rfl
+    | none =>
+      simp only [List.find?_cons]
+      by_cases ha : a.1 = c
+      · simp [ha]
+      · simp [ha]
+
 /-! ### Non-vacuity (tests) -/
+example : typedGet ([("Host", bytes "first:1"), ("Accept", bytes "*/*"), ("Host", bytes "second:2")].foldl (fun m a => kfInsert m a.1 a.2) []) "Host" = some (bytes "first:1") := by
+  decide +kernel
+example : Headers.canonOf (bytes "hOST") = some "Host" := by decide +kernel
 example : rawGet ([(bytes "X-Zone", bytes "1"), (bytes "x-zone", bytes "2")].foldl (fun m a => rawInsert m a.1 a.2) []) (bytes "X-ZONE") = some (bytes "1") := by
   decide +kernel
 
